@@ -68,6 +68,16 @@ func directedE() []ecase {
 		{Spec: eq1(atom{Kind: "dp", A: 0.125}), X: &testproto.WellKnown{DefaultDuration: &durationpb.Duration{Nanos: 4}}, Y: &testproto.WellKnown{DefaultDuration: &durationpb.Duration{Nanos: 4}}, Label: "DurationValueWithinP same"},
 		{Spec: eq1(atom{Kind: "dp", A: 25}), X: &testproto.WellKnown{DefaultDuration: &durationpb.Duration{Nanos: 4}}, Y: &testproto.WellKnown{DefaultDuration: &durationpb.Duration{Nanos: 5}}, Label: "DurationValueWithinP at the tolerance"},
 		{Spec: eq1(atom{Kind: "dp", A: 12.5}), X: &testproto.WellKnown{DefaultDuration: &durationpb.Duration{Nanos: 5}}, Y: &testproto.WellKnown{DefaultDuration: &durationpb.Duration{Nanos: 4}}, Label: "DurationValueWithinP beyond the tolerance"},
+		// the same kinds of comparison on dynamicpb values (what Unmarshal / proto.Clone of a dynamicpb message hold): one or both sides
+		{Spec: eq1(atom{Kind: "tw", D: 1000000000}), X: &testproto.WellKnown{DefaultTimestamp: ts(3, 0)}, Y: &testproto.WellKnown{DefaultTimestamp: ts(4, 0)}, DynX: true, DynY: true, Label: "TimeValueWithin at the tolerance, both dynamicpb"},
+		{Spec: eq1(atom{Kind: "tw", D: 1000000000}), X: &testproto.WellKnown{DefaultTimestamp: ts(3, 0)}, Y: &testproto.WellKnown{DefaultTimestamp: ts(4, 1)}, DynY: true, Label: "TimeValueWithin beyond the tolerance, generated vs dynamicpb"},
+		{Spec: eq1(atom{Kind: "dw", D: 1000000000}), X: &testproto.WellKnown{DefaultDuration: &durationpb.Duration{Seconds: 3}}, Y: &testproto.WellKnown{DefaultDuration: &durationpb.Duration{Seconds: 4}}, DynX: true, Label: "DurationValueWithin at the tolerance, dynamicpb vs generated"},
+		{Spec: eq1(atom{Kind: "dw", D: 1000000000}), X: &testproto.WellKnown{DefaultDuration: &durationpb.Duration{Seconds: 3}}, Y: &testproto.WellKnown{DefaultDuration: &durationpb.Duration{Seconds: 4, Nanos: 1}}, DynX: true, DynY: true, Label: "DurationValueWithin beyond the tolerance, both dynamicpb"},
+		{Spec: eq1(atom{Kind: "dw", D: 1000000000}), X: &testproto.WellKnown{DefaultDuration: &durationpb.Duration{Seconds: 9223372037}}, Y: &testproto.WellKnown{DefaultDuration: &durationpb.Duration{Seconds: -9223372037}}, DynX: true, DynY: true, Label: "DurationValueWithin saturating, both dynamicpb"},
+		{Spec: eq1(atom{Kind: "dp", A: 25}), X: &testproto.WellKnown{DefaultDuration: &durationpb.Duration{Nanos: 8}}, Y: &testproto.WellKnown{DefaultDuration: &durationpb.Duration{Nanos: 10}}, DynX: true, DynY: true, Label: "DurationValueWithinP at the tolerance, both dynamicpb"},
+		{Spec: eq1(atom{Kind: "dp", A: 12.5}), X: &testproto.WellKnown{DefaultDuration: &durationpb.Duration{Nanos: 10}}, Y: &testproto.WellKnown{DefaultDuration: &durationpb.Duration{Nanos: 8}}, DynY: true, Label: "DurationValueWithinP beyond the tolerance, generated vs dynamicpb"},
+		{Spec: plainEqual, X: ch("a", ts(1, 0)), Y: ch("a", ts(2, 0)), DynX: true, Label: "change_time value, dynamicpb vs generated"},
+		{Spec: plainEqual, X: &testproto.WellKnown{DefaultTimestamp: ts(1, 0)}, Y: &testproto.WellKnown{DefaultTimestamp: ts(1, 0)}, DynX: true, Label: "same timestamp, dynamicpb vs generated"},
 	}
 	// unknown fields: same records in another order across numbers (equal), within a number (unequal)
 	u := func(b ...byte) *testproto.ForeignMessage {
@@ -126,6 +136,14 @@ func directedV() []vcase {
 		{Spec: one(atom{Kind: "dp", A: 0.125}), Pos: dur, X: d(0, 4), Y: d(0, 4)},
 		{Spec: one(atom{Kind: "dp", A: 0.5}), Pos: dur, X: d(0, 1), Y: d(0, 4)},
 		{Spec: one(atom{Kind: "dp", A: 0.5}), Pos: dur, X: d(0, 0), Y: d(0, 0)},
+		// dynamicpb Timestamps / Durations (one or both sides)
+		{Spec: one(atom{Kind: "tw", D: 1000000000}), Pos: tim, X: t(3, 0), Y: t(4, 0), DynX: true, DynY: true},
+		{Spec: one(atom{Kind: "tw", D: 1000000000}), Pos: tim, X: t(3, 0), Y: t(4, 1), DynY: true},
+		{Spec: one(atom{Kind: "dw", D: 1000000000}), Pos: dur, X: d(3, 0), Y: d(4, 0), DynX: true},
+		{Spec: one(atom{Kind: "dw", D: 1000000000}), Pos: dur, X: d(3, 0), Y: d(4, 1), DynX: true, DynY: true},
+		{Spec: one(atom{Kind: "dw", D: 1000000000}), Pos: dur, X: d(9223372037, 1), Y: d(-9223372037, 0), DynX: true, DynY: true},
+		{Spec: one(atom{Kind: "dp", A: 25}), Pos: dur, X: d(0, 8), Y: d(0, 10), DynX: true, DynY: true},
+		{Spec: one(atom{Kind: "dp", A: 12.5}), Pos: dur, X: d(0, 10), Y: d(0, 8), DynY: true},
 		// several comparers claiming one position: every one of them counts, in either order
 		{Spec: vspec{Comb: "VA", Atoms: []atom{{Kind: "fa", A: 0, B: 1}, {Kind: "fa", A: 0, B: 0.25}}}, Pos: dbl, X: f(1), Y: f(1.5)},
 		{Spec: vspec{Comb: "VA", Atoms: []atom{{Kind: "fa", A: 0, B: 0.25}, {Kind: "fa", A: 0, B: 1}}}, Pos: dbl, X: f(1), Y: f(1.5)},
